@@ -3,10 +3,10 @@ import Drv.Common
 /-!
 Line protocol of the C04 model driver (one output line per input line):
 
-  init <srvname>            -> ok                (fresh system; instance 0 = owning context)
-  ctx <name>                -> <idx>             (new context instance)
+  init <srvname> <nonce>    -> ok                (fresh system; instance 0 = owning context; nonce = its `_instance_id`)
+  ctx <name> <nonce>        -> <idx>             (new context instance)
   proxy <ctxidx>            -> <idx> | bad-op    (new proxy in that context)
-  lock <p> -|=<custom>      -> true|false|hang
+  lock <p> -|=<custom>      -> true|false|hang|exc:QMI_UsageException
   unlock <p> -|=<custom>    -> true|false|hang
   force <p>                 -> ok|hang
   islocked <p>              -> true|false|hang
@@ -52,6 +52,7 @@ def showOut : Out → String
   | .ran n => s!"ran {n}"
   | .locked => "locked"
   | .hang => "hang"
+  | .usage => "exc:QMI_UsageException"
   | .bad => "bad-op"
 
 def doOp (s : Sys) (o : Op) : Sys × String :=
@@ -60,8 +61,8 @@ def doOp (s : Sys) (o : Op) : Sys × String :=
 
 def stepLine (s : Sys) (line : String) : Sys × String :=
   match line.splitOn " " with
-  | ["init", srv] => (init srv, "ok")
-  | ["ctx", name] => doOp s (.newCtx name)
+  | ["init", srv, nonce] => (init srv nonce, "ok")
+  | ["ctx", name, nonce] => doOp s (.newCtx name nonce)
   | ["proxy", c] => match c.toNat? with | some c => doOp s (.newProxy c) | none => (s, "bad-op")
   | ["lock", p, t] =>
     match p.toNat?, parseCustom t with
@@ -109,4 +110,4 @@ def stepLine (s : Sys) (line : String) : Sys × String :=
     | some e => (s, "dead:" ++ e.name)
   | _ => (s, "bad-op")
 
-def main : IO Unit := Drv.main' stepLine (init "srv")
+def main : IO Unit := Drv.main' stepLine (init "srv" "0")
